@@ -10,6 +10,7 @@ def AllWithData : List SspocOp → Prop
   | [] => True
   | .update _ _ xy _ :: ops => xy = true ∧ AllWithData ops
   | .fit .. :: ops => AllWithData ops
+  | .updateRefused .. :: _ => False      -- … and none of them ends in the classifier refusing the data (finding F16, below)
 
 theorem init_consistent (ns : Option PyCount) (thr : Option Rat) : (Sspoc.init ns thr).Consistent := by
   simp [Sspoc.init, Sspoc.Consistent, Sspoc.predictKind]
@@ -106,7 +107,7 @@ theorem fit_consistent (st : Sspoc) (nf : Nat) (r : Bool) (mag : List Rat) (d : 
 
 /-- one step preserves the invariant -/
 theorem step_consistent (st : Sspoc) (op : SspocOp) (h : st.Consistent)
-    (hop : match op with | .update _ _ xy _ => xy = true | .fit .. => True) :
+    (hop : match op with | .update _ _ xy _ => xy = true | .fit .. => True | .updateRefused .. => False) :
     (st.step op).1.Consistent := by
   cases op with
   | fit nf r mag d =>
@@ -117,6 +118,7 @@ theorem step_consistent (st : Sspoc) (op : SspocOp) (h : st.Consistent)
     simp only at hop
     subst hop
     exact update_consistent st n thr mag none h
+  | updateRefused n thr mag => exact absurd hop id
 
 /-- **C09.** After any sequence of `fit(refit=True/False)`, `update_sensors(…, xy)` and
 `update_n_basis_modes` (a `fit` for this machine) calls – accepted or rejected – the dispatch of
@@ -140,7 +142,22 @@ theorem dispatch_consistent (ns : Option PyCount) (thr : Option Rat) (ops : List
         exact ih _ (step_consistent st _ hst trivial) hall
       | update n thr xy mag =>
         exact ih _ (step_consistent st _ hst hall.1) hall.2
+      | updateRefused n thr mag => exact absurd hall id
   exact key ops _ (init_consistent ns thr) h
+
+/-- a model fitted with three sensors and refitted on them -/
+def f16State : Sspoc :=
+  { nSensors := some (.int 3), threshold := none, refit := true, fitted := true, fitNo := 1,
+    trained := .sensorCols 1 [2, 0, 1], sel := [2, 0, 1], nFeat := 4 }
+
+/-- **finding F16, machine-checked on the model of the code as it is.**  `update_sensors(n_sensors=2, xy=…)` whose refit data the
+classifier refuses is rejected – but the selection and the count have changed, and the dispatch invariant is gone: `predict` will
+hand two sensor columns to a classifier trained on three.  (This is why `AllWithData` excludes refused refits.) -/
+theorem refused_refit_is_not_atomic :
+    f16State.Consistent ∧ (f16State.updateRefused (some (.int 2)) none [1, 2, 3, 0]).2 = some .valueError ∧
+      (f16State.updateRefused (some (.int 2)) none [1, 2, 3, 0]).1.sel ≠ f16State.sel ∧
+      ¬ (f16State.updateRefused (some (.int 2)) none [1, 2, 3, 0]).1.Consistent := by
+  decide
 
 /-- with zero sensors the dummy classifier is used -/
 theorem zero_sensors_dummy (st : Sspoc) (hf : st.fitted = true) (h0 : st.nSensors = some (.int 0)) :
